@@ -78,10 +78,14 @@ def instances(tier):
     # the same numbers in other memory representations: looking at a result must not depend on how its arrays are stored
     for kind in kit.DATASET_KINDS:
         for storage in kit.STORAGES[1:]:
-            if tier == 'quick' and storage in ('fortran', 'float32') and kind not in ('equal', 'student'):
+            if tier == 'quick' and storage in ('fortran', 'float32', 'string-bins') and kind not in ('equal', 'student', 'approx'):
                 continue
-            out.append((kind, (2, 2) if storage == 'fortran' else (3,), ((False, True, False, False),) if storage == 'fortran'
-                        else ((False, True, False),), None, storage))
+            two_d = storage in ('fortran', 'string-bins')
+            shape = {'fortran': (2, 2), 'string-bins': (3, 2)}.get(storage, (3,))
+            ncell = int(shape[0] * (shape[1] if two_d else 1))
+            out.append((kind, shape, (tuple(i == 1 for i in range(ncell)),), None, storage))
+            if storage == 'string-bins':
+                out.append((kind, shape, (tuple(False for _ in range(ncell)),), None, storage))
     out += [('metadata', None, None, (True, True)), ('metadata', None, None, (True, False)),
             ('stats_tasks', None, None, ('DONE', 'DONE')), ('stats_tasks', None, None, ('DONE', 'FAILED', 'SKIPPED')),
             ('stats_tests', None, None, ((True,), (True, True))), ('stats_tests', None, None, ((True,), (False,), None)),
